@@ -276,6 +276,8 @@ func kTableCase(r *vlib.RNG, b kBudget, damaged bool, res *vlib.Result) (cs []st
 	var qs []string
 	if !damaged {
 		qs = append(qs, "QAll "+coqHPairs(kvs))
+		qs = append(qs, fmt.Sprintf("QCheck %d %s", cfg.RestartInterval, coqHPairs(kvs)))
+		res.Count("k_tables_format_membership_checked", 1)
 	}
 	probes := GenProbeKeys(r, kvs)
 	for i := len(probes) - 1; i > 0; i-- {
